@@ -81,7 +81,7 @@ func TestC12(t *testing.T) {
 			"SetRoutingRules and Authenticate run on a real keeper over a branched context of a real chain and are compared with the field-wise reference; distinct = distinct (rule list, triple) pairs")
 	rec.Require("set-accepted", "set-rejected", "auth-true", "auth-false", "via-msg")
 	seed := mon.Seed()
-	nCases := mon.Scale(60_000, 3_000_000)
+	nCases := mon.Scale(60_000, 1_200_000)
 	workers := 16
 	var wg sync.WaitGroup
 	for wk := 0; wk < workers; wk++ {
